@@ -60,7 +60,7 @@ FIXED_KINDS = ["fe_it", "fe_idx", "fe_both", "fe_sorted", "fe_guard", "sum", "un
 
 
 def family_fixed(tier, seed, n=None):
-    out = []
+    out = witness_sum_reassign()
     per = 2 if tier == "quick" else 24
     for kind in FIXED_KINDS:
         for t in range(per):
@@ -83,6 +83,9 @@ def family_fixed(tier, seed, n=None):
             # edits between calls: the next call acts on exactly the exposed list
             for _ in range(2):
                 ed = rnd.choice(["l_append", "l_clear+", "l_assign", "l_setitem", "nl_append", "set_k"])
+                if kind == "sum" and ed in ("l_append", "l_clear+", "l_assign"):
+                    # quarantine of known finding C04-sum-after-content-change (witness: L/fixed/witness/sum_reassign)
+                    ed = "l_setitem"
                 if ed == "l_append" and size < 4:
                     ops.append({"op": "list", "kind": "l_append", "p": "o1.l", "vs": [bits(rnd.randrange(4), 2)]})
                     size += 1
@@ -107,6 +110,21 @@ def family_fixed(tier, seed, n=None):
                 ops.append({"op": "probe", "call": wcall(), "paths": ["o1.a"] + elems, "cap": 1024})
             out.append({"id": "L/fixed/%s/%s/%d" % (kind, "core" if core else "s%d" % seed, t), "world": world, "ops": ops, "tags": []})
     return out
+
+
+def _placeholder():
+    pass
+
+
+def witness_sum_reassign():
+    fields = [fld("a", 2, False), fld("k", 2, False, rand=False, init=0), list_field("l", 2, False, init=[0, 0, 0], cap=5),
+              list_field("nl", 2, False, rand=False, init=[1, 2], cap=5)]
+    body = [E(B("ge", {"k": "sum", "l": "l"}, F("a")))]
+    world = {"classes": {"A": {"base": "", "fields": fields, "blocks": [{"name": "c1", "dynamic": False, "body": body}]}},
+             "population": [{"id": "o1", "cls": "A"}]}
+    ops = [{"op": "construct", "o": "o1"}, {"op": "call", "call": mcall()},
+           {"op": "list", "kind": "l_assign", "p": "o1.l", "vs": [bits(3, 2)]}, {"op": "call", "call": mcall()}]
+    return [{"id": "L/fixed/witness/sum_reassign", "world": world, "ops": ops, "tags": []}]
 
 
 def family_randsz(tier, seed, n=None):
